@@ -39,3 +39,6 @@ func (s *Subscriber) VerifInit(ctx context.Context) error {
 }
 func (s *Subscriber) VerifPeerSeen(p peer.ID) { s.peerTracker.peerSeen(p) }
 func (s *Subscriber) VerifPoller() *Poller    { return s.poller }
+
+// VerifRun runs the subscriber's polling loop (blocking until ctx is cancelled).
+func (s *Subscriber) VerifRun(ctx context.Context) error { return s.run(ctx) }
